@@ -1,8 +1,9 @@
 SPECIFICATION Spec
 CONSTANTS
-  Groups = {"wallet", "blockrelay", "messenger", "controller", "cache", "validators", "attester", "registrar", "bids", "restcfg", "exechead", "syncagg", "bestvotes", "bidstrategy"}
+  Groups = {"wallet", "blockrelay", "messenger", "controller", "cache", "validators", "attester", "registrar", "bids", "restcfg", "exechead", "syncagg", "bestvotes", "bidstrategy", "dirk"}
   Pinned = FALSE
   InPlace = FALSE
+  Reuse = FALSE
   MaxPar = 3
 INVARIANTS TypeOK Linearizable Disciplined
 CONSTRAINT Bounded
